@@ -48,16 +48,18 @@ def _same_outcome(p, q):
     return p == q
 
 
-@harness("C20", lemma="roundtrip", cubes={"gi": [0, 1, 2, 3, 4], "proto": [0, 1, 2, 3, 4, 5], "where": [0, 1]},
-         example=dict(gi=1, proto=4, where=1, a=1, pa=True, b=2, pb=False, d=1, pd=True, x=3, px=True), timeout=300, stubs=("S1",),
+@harness("C20", lemma="roundtrip", cubes={"gi": [0, 1, 2, 3, 4, 5], "pw": [[0, 0], [1, 0], [2, 0], [3, 0], [4, 0], [5, 0], [2, 1], [5, 1]]},
+         example=dict(gi=1, pw=[5, 1], a=1, pa=True, b=2, pb=False, d=1, pd=True, x=3, px=True), timeout=300, stubs=("S1",),
          bounds="5 module-level dataset graphs in the explicit dataset(f) form (plain; dispatch + 3 overloads incl. a str alias + callback "
                 "+ effect; nested with pre-set and default options; nocache with Option-with-default dispatch; a with_options/"
-                "with_default_options derivative); pickle protocols 0-5; pickled in this process or by a freshly started interpreter; "
+                "with_default_options derivative; a dataset one of whose overloads is built from the dataset itself); pickle protocols 0-5 pickled in this process, protocols 2 and 5 also pickled by a freshly started interpreter; "
                 "options A, B, D, X present or absent with unbounded int values",
          what="loads(dumps(G)) evaluates to the same value / fails alike and reports the same keys as G for every dictionary, "
-              "including overloads registered before pickling; the copy accepts a further registration and evaluates it")
-def roundtrip(gi: int, proto: int, where: int, a: int, pa: bool, b: int, pb: bool, d: int, pd: bool, x: int, px: bool) -> int:
+              "including overloads registered before pickling; the copy accepts a further registration and evaluates it; live datasets of the unpickling process are undisturbed")
+def roundtrip(gi: int, pw: list, a: int, pa: bool, b: int, pb: bool, d: int, pd: bool, x: int, px: bool) -> int:
+    proto, where = pw
     G = defs.GRAPHS[gi]
+    o = _opts(a, pa, b, pb, d, pd, x, px)
     with untraced():
         defs.reset_caches()
         try:
@@ -66,14 +68,21 @@ def roundtrip(gi: int, proto: int, where: int, a: int, pa: bool, b: int, pb: boo
         except Exception as e:
             note("pickling failed", defs.NAMES[gi], proto, type(e).__name__, str(e)[:200])
             return 0
-    o = _opts(a, pa, b, pb, d, pd, x, px)
     with quiet():
         r1, r2 = outcome(lambda: G(o)), outcome(lambda: C(o))
         k1, k2 = outcome(lambda: sorted(G.keys(o))), outcome(lambda: sorted(C.keys(o)))
     note("graph", defs.NAMES[gi], "protocol", proto, "options", o, "original", r1, "copy", r2, "keys", k1, k2)
     if not _same_outcome(r1, r2) or k1 != k2:
         return 0
-    if gi in (1, 3):
+    if gi != 0:
+        # a live bystander of the unpickling process (no callback, no overloads) still evaluates to what its definition says
+        with quiet():
+            by = outcome(lambda: defs.plain(o))
+        want = ("ok", ("base", a, b if pb else 1)) if pa else None
+        if (want is None and by[0] == "ok") or (want is not None and not _same_outcome(by, want)):
+            note("unpickling disturbed a live dataset: plain ->", by, "expected", want)
+            return 0
+    if gi in (1, 3, 5):
         # the copy remains usable: a further registration on the copy is honoured by the copy (and does not need the original)
         with untraced():
             C.register(99, Value("late"))
